@@ -84,7 +84,7 @@ func ruleC11Wire(e *Env) {
 		return
 	}
 	site := flow.FnName(mb)
-	ev := &pred.Evaluator{Prog: e.P.SSA, Oracle: noOracle{}}
+	ev := &pred.Evaluator{Prog: e.P.SSA, GlobalInit: e.globalTables(), Oracle: noOracle{}}
 	out, err := ev.Eval(mb, []pred.Val{a.recv("d")})
 	if err != nil {
 		e.S.Unk(rule, site, "wire", err.Error(), e.Pos(mb))
@@ -180,7 +180,7 @@ func ruleC11Wire(e *Env) {
 	if f := e.P.Method("date", "Date", "FromTime"); f != nil {
 		sums[f.String()] = fromTime(true)
 	}
-	ev2 := &pred.Evaluator{Prog: e.P.SSA, Oracle: canonOracle{}, Summaries: sums}
+	ev2 := &pred.Evaluator{Prog: e.P.SSA, GlobalInit: e.globalTables(), Oracle: canonOracle{}, Summaries: sums}
 	out2, err := ev2.Eval(ub, []pred.Val{pred.Ptr{Cell: recv}, wire})
 	if err != nil {
 		e.S.Unk("C11.inv", usite, "composition", "UnmarshalBinary∘MarshalBinary not evaluable symbolically: "+err.Error(), e.Pos(ub))
